@@ -104,7 +104,7 @@ Expected == CASE hd.mode = "full"    -> TreeDef(hd.cfg, XQ(win))
               [] hd.mode = "window"  -> WindowDef(hd.cfg, XQ(win))
               [] hd.mode = "rolling" -> RollingDef(hd.cfg)
               [] hd.mode = "machine" -> LET mo == TM_Out(hd.cfg, mst) IN IF mo = MUndef THEN RAny ELSE mo
-              [] hd.mode = "range"   -> RAny
+              [] hd.mode \in {"range", "nopanic"} -> RAny
 
 (* natural scale of an output: width of the range for bounded indicators, largest input magnitude otherwise *)
 Scale(cfg, want) ==
@@ -115,7 +115,8 @@ Scale(cfg, want) ==
       [] cfg.k \in {"BinaryEntropy", "LaguerreRSI", "Drawdown", "LnReturn"} -> QOne
       [] cfg.k \in {"Vst", "Roc", "CenterOfGravity", "Cumulative"} -> QMax(mag, QAbs(want))
       [] OTHER -> mag
-Eps == QFrac(hd.eps[1], hd.eps[2])
+(* tolerance factor: eps = [num, den], or epsp = k for 10^-k (TLC integers are 32-bit) *)
+Eps == IF "epsp" \in DOMAIN hd THEN QPow10Neg(hd.epsp) ELSE QFrac(hd.eps[1], hd.eps[2])
 
 (* |obs - expected| <= eps * scale *)
 Within(o, r) ==
@@ -140,6 +141,7 @@ RangeVerdict == \/ ~OIsSome(cur)
 Verdict == \/ hd = <<>> \/ cnt = 0
            \/ /\ Tally("events")
               /\ IF hd.mode = "range" THEN RangeVerdict
+                 ELSE IF hd.mode = "nopanic" THEN (~OIsPanic(cur) /\ Tally("nopanic")) \/ Report("panic")
                  ELSE LET r == Expected IN
                       /\ Tally("def." \o r[1])
                       /\ (Within(cur, r) \/ Report("tracks-exact"))
